@@ -81,6 +81,37 @@ def read_mutate_read(obj, observe, label, fails, mutators=None, tol_size=1.0):
     return n
 
 
+def read_pairs(factory, getters, label, fails, size=1.0):
+    """Queries must not influence each other.  getters: {name: callable(shape) -> value}; factory() builds a fresh shape.
+    Baseline: every member read alone on its own fresh object.  Then, for every ordered pair (a, b) -- including (a, a) -- a
+    fresh object is asked a and afterwards b, and b's answer must be the baseline.  Appends (case, info) to fails; returns
+    the number of pairs."""
+    base = {}
+    for nm, g in getters.items():
+        try:
+            base[nm] = g(factory())
+        except Exception as e:  # noqa: BLE001
+            fails.append((f"{label}:{nm}:alone", {"raised": f"{type(e).__name__}: {e}"[:200]}))
+            return 0
+    n = 0
+    for a, ga in getters.items():
+        for b, gb in getters.items():
+            n += 1
+            o = factory()
+            try:
+                ga(o)
+                got = gb(o)
+            except Exception as e:  # noqa: BLE001
+                fails.append((f"{label}:{a}_then_{b}", {"history": [a, b], "raised": f"{type(e).__name__}: {e}"[:200]}))
+                return n
+            if not _close(got, base[b], size):
+                fails.append((f"{label}:{a}_then_{b}", {"class": type(o).__name__, "history": [f"read {a}", f"read {b}"], "observable": b,
+                                                        "after_the_other_read": _brief(got), "read_alone_on_a_fresh_shape": _brief(base[b]),
+                                                        "vertices": np.asarray(getattr(o, "vertices"), float).tolist()}))
+                return n
+    return n
+
+
 def _brief(v):
     try:
         arr = np.asarray(v)
